@@ -180,6 +180,11 @@ func runPubWorkload(c *run.Ctx, pp pubParams) (*Episode, *pubAnalysis, []*sim.Pu
 			c.Spoiled()
 			return ep, nil, nil
 		}
+		if !ep.D.WatchersDone(sim.StepTimeout) {
+			c.Violate("exchange-without-errclosed", "an exchange of the closed client neither closed nor received ErrClosed", map[string]any{"trace_tail": ep.W.TraceTail(40)})
+			c.Spoiled()
+			return ep, nil, nil
+		}
 		collect()
 		ep.W.Log(sim.Event{Kind: "adopt", N: ep.D.Gen + 1})
 		ep.W.Mu.Lock()
@@ -244,8 +249,12 @@ func runPubWorkload(c *run.Ctx, pp pubParams) (*Episode, *pubAnalysis, []*sim.Pu
 	} else {
 		a = analyzePubs(ep, all, final)
 	}
-	if !pp.NoClose && !ep.D.CloseAndWait() {
-		c.Spoiled()
+	if !pp.NoClose {
+		if !ep.D.CloseAndWait() {
+			c.Spoiled()
+		} else if !pp.Volatile && !ep.D.WatchersDone(sim.StepTimeout) {
+			c.Spoiled() // a watcher is still around: the process state is not clean
+		}
 	}
 	return ep, a, all
 }
@@ -330,7 +339,7 @@ func init() {
 			return 1500
 		},
 		ChunkSize: 25,
-		Rule:      "each case is a PRNG-drawn episode: 1-24 persisted publishes (both levels, retained or not, payload 0 B-140 kB) from 1-3 goroutines against the scripted connection, reference broker and instrumented Persistence (a third of the episodes with a Load that hands out the stored slice itself, as the built-in store does; 1 in 6 on VolatileSession, judged on wire, exchanges and deliveries only), with a budget of 0-8 connection-fatal faults (write error at a byte offset, zero-progress expiry, blackholed writes, read EOF/reset/expiry, failed dial, refused or missing CONNACK, lost acknowledgement, transient Load/Save/Delete error) plus harmless ones (short writes with expiry, fragmented reads, stalls with progress, withheld acknowledgements); then faults stop and the episode must reach idle. Non-trivial: at least one connection loss while a message was unacknowledged and a resend observed; distinct by the multiset of fault kinds fired and the numbers of connections and messages.",
+		Rule:      "each case is a PRNG-drawn episode: 1-24 persisted publishes (both levels, retained or not, payload 0 B-140 kB) from 1-3 goroutines against the scripted connection, reference broker and instrumented Persistence (a third of the episodes with a Load that hands out the stored slice itself, as the built-in store does; 1 in 6 on VolatileSession, judged on wire, exchanges and deliveries only; 1 in 6 ends with 1-2 stops and AdoptSession followed by new publishes), with a budget of 0-8 connection-fatal faults (write error at a byte offset, zero-progress expiry, blackholed writes, read EOF/reset/expiry, failed dial, refused or missing CONNACK, lost acknowledgement, transient Load/Save/Delete error) plus harmless ones (short writes with expiry, fragmented reads, stalls with progress, withheld acknowledgements); then faults stop and the episode must reach idle. Non-trivial: at least one connection loss while a message was unacknowledged and a resend observed; distinct by the multiset of fault kinds fired and the numbers of connections and messages.",
 		Assumptions: []string{
 			"faults are realistic: Close never fails, a failed Write reports fewer bytes than given, store errors have no effect, expiries occur only under an armed deadline",
 			"the broker model conforms to MQTT 3.1.1 (acknowledgements in order, retransmission only on reconnect)",
@@ -349,6 +358,10 @@ func init() {
 			if c.Case%6 == 4 {
 				pp.Volatile = true
 				c.Count("volatile_session_episodes", 1)
+			} else if c.Rng.Intn(5) == 0 {
+				// the process stops and the session is adopted: what was accepted is still owed
+				pp.Restarts = 1 + c.Rng.Intn(2)
+				c.Count("episodes_with_restarts", 1)
 			}
 			ep, a, all := runPubWorkload(c, pp)
 			reportPubs(c, ep, a, all, "C01", "C08", "C15")
